@@ -606,4 +606,42 @@ def lazy_batch_ops(idx: ProgramIndex, rep: Report):
                     if batch_moved and ker is not None and src(ker) == "self.kernel" and not trivial:
                         probs.append("re-arranges the batch dimensions of the inputs (`%s`) but passes kernel=self.kernel unchanged: the kernel's batched parameters stay aligned with the old batch dimensions" % " ".join(src(batch_moved[0]).split())[:60])
         rep.add("C06-8", inst, own.where, not probs, "the override re-arranges the kernel together with the inputs (or leaves the batch dimensions alone)" if not probs else "; ".join(sorted(set(probs))), {})
+    # indices that refer to the *broadcast* batch shape may be applied to the kernel only once the kernel has that batch shape: an
+    # optimistic attempt guarded by `except IndexError` proves nothing - a kernel with fewer batch dimensions accepts the leading indices
+    # on whatever dimensions it has (Kernel.__getitem__ indexes the parameters' leading dimensions), and the index meant for an input
+    # batch dimension selects a hyper-parameter instead
+    gi = lek.methods.get("_getitem")
+    if gi is not None:
+        for t in (x for x in ast.walk(gi.node) if isinstance(x, ast.Try)):
+            opt = [c for b_ in t.body for c in ast.walk(b_) if isinstance(c, ast.Call) and isinstance(c.func, ast.Attribute) and c.func.attr == "__getitem__" and chain(c.func.value) == "self.kernel"]
+            opt += [c for b_ in t.body for c in ast.walk(b_) if isinstance(c, ast.Subscript) and chain(c.value) == "self.kernel"]
+            if not opt:
+                continue
+            n += 1
+            catches = [h for h in t.handlers if h.type is not None and "IndexError" in src(h.type)]
+            rank_checked = any("batch_shape" in src(g) and "len(" in src(g) for g in _guards_around(gi.node, t))
+            bad = bool(catches) and not rank_checked
+            rep.add("C06-8", "%s:LazyEvaluatedKernelTensor._getitem[kernel indexed before expansion]" % lek.module.name, "%s:%d" % (gi.module.relpath, t.lineno), not bad,
+                    "the kernel is indexed after it was given the full batch shape (or its batch rank was checked)" if not bad else
+                    "`self.kernel.__getitem__(batch_indices)` is tried first and the expansion to the broadcast batch shape happens only on IndexError: a kernel with fewer batch dimensions than the inputs accepts the leading index on its own first dimension, so an index meant for an input batch dimension picks a hyper-parameter", {})
     rep.floor("C06-8", "batch re-arranging primitives", n, 5)
+
+
+def _guards_around(fn: ast.AST, target: ast.AST) -> List[ast.AST]:
+    out: List[ast.AST] = []
+
+    def rec(stmts, acc) -> bool:
+        for st in stmts:
+            if st is target:
+                out.extend(acc)
+                return True
+            if any(x is target for x in ast.walk(st)):
+                if isinstance(st, ast.If):
+                    return rec(st.body, acc + [st.test]) or rec(st.orelse, acc + [st.test])
+                for blk in ("body", "orelse", "finalbody", "handlers"):
+                    v = getattr(st, blk, None)
+                    if isinstance(v, list) and rec([x for x in v if isinstance(x, ast.stmt)], acc):
+                        return True
+        return False
+    rec(fn.body, [])
+    return out
